@@ -785,7 +785,6 @@ def _eval_files(ctx, cases):
             if iv != sv:
                 key = 'file/' + lab
                 break
-        key = _known_class(f, key, impl, model)
         nlists = sum(len(x) for x in f['nontrivial'])
         ctx.bump('sections', ''.join(c for c, k in (('l', 'loc'), ('r', 'ranges'), ('L', 'loclists'), ('R', 'rnglists')) if f['bytes'].get(k) is not None))
         ctx.bump('units', len(a[7]))
@@ -793,22 +792,10 @@ def _eval_files(ctx, cases):
         ctx.record('file', a, impl=impl, spec=spec, model=model, in_domain=f['wf'], nontrivial=nlists > 0, key=key)
 
 
-KNOWN_TAIL = 'loclists-tail-at-unit-end'
-
-
-def _known_class(f, key, impl, model):
-    """the finding key of a failing case: the v5 iter_location_lists walk leaves a unit block as soon as the stream
-    reaches its end, also when a designated list that starts inside the block's LAST list (shared tail) is still
-    pending; the model mirrors that (impl == model), the specification demands the list"""
-    if not key.endswith('/ok') and f['tail_at_unit_end'] and impl == model:
-        return KNOWN_TAIL
-    return key
-
-
 def _assemble(a, s, built):
     """section bytes, positions of every list item, DIE attribute values, the abstract views for the model"""
     le, asz, loc4, rng4, tables, loc5, rng5, cus = a
-    f = {'le': le, 'asz': asz, 'a': a, 'wf': True, 'bytes': {}, 'nontrivial': [], 'tail_at_unit_end': False}
+    f = {'le': le, 'asz': asz, 'a': a, 'wf': True, 'bytes': {}, 'nontrivial': []}
     # .debug_addr: every table after its own prefix
     addr = b''
     bases = []
@@ -865,9 +852,6 @@ def _assemble(a, s, built):
                 elif at[0] == 'sub':
                     role, name, sec, form, ui, li, ent, k = at
                     tgt = ('sub', sec, ui, li, ent)
-                    its = loc5[ui][5] if sec == 'loc5' else None
-                    if its and its[-1][0] == 'list' and li == len(_list_items(its)) - 1:
-                        f['tail_at_unit_end'] = True
                     if form in ('DW_FORM_loclistx', 'DW_FORM_rnglistx'):
                         out.append((name, form, k, tgt))
                     else:
@@ -1237,7 +1221,6 @@ def _eval_sessions(ctx, cases):
             if iv != sv:
                 key = 'session/' + str((iv or sv)[0])
                 break
-        key = _known_class(f, key, impl, model)
         kinds = [op[0] for op in script]
         ctx.bump('session-start', 'warm' if kinds[0] == 'act' and script[0][1][0] == 'parse' else 'fresh')
         for op in script:
